@@ -1,4 +1,5 @@
 import ActixNet.Lemmas.SrvFuel
+import ActixNet.Lemmas.SrvBits
 /-!
 # C08 — a faulted worker is detected, bypassed and replaced; its connection is re-routed
 
@@ -167,6 +168,65 @@ theorem next_in_range (cfg : Cfg) (ok : CfgOk cfg) (kinds : List Kind) (ops : Li
     (run cfg (init cfg kinds) ops).next < (run cfg (init cfg kinds) ops).handles.length :=
   (run_np ok ops _ (init_np cfg kinds)).sound.next1 h
 
+/-! ### availability bits are only ever set by a notification -/
+
+/-- **An iteration of the accept loop that processes no notification never turns an availability bit ON.**
+Nothing is queued for the waker when the iteration begins (`s.wq = []`) and no other thread pushes while it
+runs (empty schedule): for every batch of events, however many connections the iteration dispatches, every
+bit set afterwards was set before.
+
+Why `s.wq = []` is all that is needed: the accept thread writes the bitset in `send_connection`
+(`if !inc_counter() { set_available(idx, false) }`), in `remove_next` and in the skip of `accept_one` (both
+`set_available(idx, false)`), and in exactly two arms of `handle_waker` — `WorkerAvailable(idx)` and
+`Worker(handle)` (`add_worker`), the only writers of `true`; both are reached only by popping an interest off
+the waker queue, and no other thread writes the bitset (`yieldPt_avail`).  With nothing queued `handle_waker`
+pops nothing and returns.
+
+Meaning for the code: `send_connection` may only CLEAR the bit of the worker it sent to — also when the
+dispatch is forced (`while let Err(c) = self.send_connection(c)`, every bit clear after a worker fault).
+seed14 C08-28 wrote `set_available(idx, inc_counter())`; above the limit `inc` answers true (the counter only
+answers false when it reaches the limit exactly), so a survivor that a forced dispatch had pushed over its
+limit was marked available again and was given still more.  Harness oracle: "an iteration that processed no
+notification must not turn a bit on". -/
+theorem quiet_iteration_turns_no_bit_on (cfg : Cfg) (s : St) (order : List Ev) (hq : s.wq = []) :
+    ∀ i, (poll cfg s order []).avail i = true → s.avail i = true :=
+  poll_off cfg s order (by rw [hq]; exact Cmds.nil)
+
+/-- the same with commands queued: pause / resume / stop may be waiting (resume even runs the accept loop on
+every listener) — only the two notifications `WorkerAvailable` / `Worker` can turn a bit on -/
+theorem iteration_without_notification_turns_no_bit_on (cfg : Cfg) (s : St) (order : List Ev)
+    (hq : ∀ i ∈ s.wq, i = .pause ∨ i = .resume ∨ i = .stop) :
+    ∀ i, (poll cfg s order []).avail i = true → s.avail i = true :=
+  poll_off cfg s order (fun i hi => by rcases hq i hi with h | h | h <;> subst h <;> rfl)
+
+/-- a dispatch never turns a bit on — for EVERY schedule: one run of `Accept::accept` on a listener (any number
+of connections, window W1 of each open to every other thread, worker deaths, forced dispatch) -/
+theorem dispatch_turns_no_bit_on (cfg : Cfg) (fuel : Nat) (s : St) (l : Nat) :
+    ∀ i, (accept cfg fuel s l).avail i = true → s.avail i = true :=
+  accept_off cfg fuel s l
+
+/-- **the shape the harness oracle judges**: worker incarnation `w` (index `(wk w).idx`), its bit clear before
+the quiet iteration, its shared counter (biased by one: `Src.wcTotal`) showing it full afterwards — its bit is
+clear afterwards.  (The fullness premise is the oracle's filter; the conclusion does not depend on it.) -/
+theorem quiet_iteration_keeps_full_worker_unavailable (cfg : Cfg) (s : St) (order : List Ev) (hq : s.wq = [])
+    (w : Nat) (hclear : s.avail ((poll cfg s order []).wk w).idx = false)
+    (_hfull : cfg.limit ≤ Src.wcTotal ((poll cfg s order []).wk w).c) :
+    (poll cfg s order []).avail ((poll cfg s order []).wk w).idx = false := by
+  cases h : (poll cfg s order []).avail ((poll cfg s order []).wk w).idx with
+  | false => rfl
+  | true => rw [quiet_iteration_turns_no_bit_on cfg s order hq _ h] at hclear; cases hclear
+
+/-- reachable form — the quiet iteration as the last operation of ANY history (worker deaths, replacements,
+late notifications already handled, …): it ends without fault and has turned no bit on -/
+theorem quiet_iteration_turns_no_bit_on_reachable (cfg : Cfg) (ok : CfgOk cfg) (kinds : List Kind) (ops : List Op)
+    (order : List Ev) (hq : (run cfg (init cfg kinds) ops).wq = []) :
+    (run cfg (init cfg kinds) (ops ++ [.poll order []])).fault = none ∧
+    ∀ i, (run cfg (init cfg kinds) (ops ++ [.poll order []])).avail i = true →
+      (run cfg (init cfg kinds) ops).avail i = true := by
+  refine ⟨run_fault_none ok kinds _, ?_⟩
+  rw [run_cat]
+  exact quiet_iteration_turns_no_bit_on cfg _ order hq
+
 /-! ### Non-vacuity: one fault, re-route, replacement; and two faults with a late notification -/
 def cfg1 : Cfg := { limit := 1, nIdx := 2 }
 -- both workers saturated; worker 0 idle-dies later, worker 1 dies saturated; its connection finishes
@@ -220,5 +280,29 @@ example : sOne.fault = none ∧ sOne.handles = [1] ∧ sOne.next = 0 ∧ (sOne.w
 example : (init cfg1 [.tcp]).fault = none ∧ (init cfg1 [.tcp]).handles[(init cfg1 [.tcp]).next]? = some 0 ∧
     (init cfg1 [.tcp]).avail ((init cfg1 [.tcp]).wk 0).idx = true ∧ ((init cfg1 [.tcp]).wk 0).alive = true ∧
     (init cfg1 [.tcp]).handles.length ≠ 0 := by decide
+
+-- a forced dispatch onto a saturated survivor (hypotheses of `quiet_iteration_turns_no_bit_on` and of its
+-- oracle-shaped corollary): limit 1, worker 0 holds one connection (bit clear), worker 1 dies while marked
+-- available, nothing is queued for the waker, a second connection waits in the backlog
+def sSurvivor : St := run cfg1 (init cfg1 [.tcp])
+  [.env (.connect 0), .poll [.listener 0, .waker] [], .env (.die 1), .env (.connect 0)]
+example : sSurvivor.wq = [] ∧ sSurvivor.avail 0 = false ∧ sSurvivor.avail 1 = true ∧
+    Src.wcTotal (sSurvivor.wk 0).c = 1 ∧ sSurvivor.handles = [0, 1] ∧ sSurvivor.next = 1 := by decide
+-- the quiet iteration finds worker 1 dead, reports it, and forces the connection onto worker 0 (every bit is
+-- clear): worker 0 now holds 2 > limit and its bit is still clear, no fault
+example : (poll cfg1 sSurvivor [.listener 0, .waker] []).fault = none ∧
+    (poll cfg1 sSurvivor [.listener 0, .waker] []).faultedLog = [1] ∧
+    (poll cfg1 sSurvivor [.listener 0, .waker] []).dispatched = [((0, 0), 0), ((1, 0), 0)] ∧
+    cfg1.limit ≤ Src.wcTotal ((poll cfg1 sSurvivor [.listener 0, .waker] []).wk 0).c ∧
+    Src.wcTotal ((poll cfg1 sSurvivor [.listener 0, .waker] []).wk 0).c = 2 ∧
+    (poll cfg1 sSurvivor [.listener 0, .waker] []).avail 0 = false ∧
+    (poll cfg1 sSurvivor [.listener 0, .waker] []).avail 1 = false := by decide
+-- the hypothesis `wq = []` is not idle: with a notification queued the iteration does turn a bit on
+def sNotified : St := run cfg1 (init cfg1 [.tcp])
+  [.env (.connect 0), .poll [.listener 0, .waker] [], .env (.recv 0), .env (.finishNow 0 none)]
+example : sNotified.wq = [.workerAvail 0] ∧ sNotified.avail 0 = false ∧
+    (poll cfg1 sNotified [.waker] []).avail 0 = true := by decide
+-- commands only (hypothesis of `iteration_without_notification_turns_no_bit_on`)
+example : ∀ i ∈ (run cfg1 sSurvivor [.env (.cmd .pause), .env (.cmd .resume)]).wq, i = .pause ∨ i = .resume ∨ i = .stop := by decide
 
 end ActixNet.C08
